@@ -151,6 +151,8 @@ pub fn record(args: &Args) {
             let mut cur_batch: Option<(u64, u64)> = None;
             let mut failed_seen = false;
             let (mut n_fetch, mut n_prune, mut n_foreign, mut n_disc, mut n_race) = (0u64, 0u64, 0u64, 0u64, 0u64);
+            let (mut n_forked_head, mut n_sub_ignored) = (0u64, 0u64);
+            let mut sub_known: Option<celestia_types::ExtendedHeader> = None; // header-sub's known head (as in P2p)
             let mut fatal = false;
             let total_steps = steps + 400; // honest tail
             let mut idle = 0;
@@ -192,6 +194,14 @@ pub fn record(args: &Args) {
                                     // head request: trusted peers answer honestly (sometimes not at all)
                                     if adversarial && rng.gen_bool(0.15) {
                                         let _ = respond_to.send(Err(w::header_ex_error("not_found")));
+                                    } else if adversarial && mode == "c38" && rng.gen_bool(0.5)
+                                        && world.store.inner.head_height().await.ok() == Some(net_head)
+                                    {
+                                        // a forked head of exactly the stored head's height (the one place where the
+                                        // store itself can tell a wrong head from the right one): the initialisation
+                                        // must fail and be retried; nothing is stored, no header-sub is set up on it
+                                        n_forked_head += 1;
+                                        let _ = respond_to.send(Ok(vec![world.f[(net_head - 1) as usize].clone()]));
                                     } else {
                                         let _ = respond_to.send(Ok(vec![world.a(net_head)]));
                                         init_inflight = true;
@@ -203,7 +213,10 @@ pub fn record(args: &Args) {
                                 }
                             }
                         }
-                        MockCmd::InitHeaderSub { .. } => has_sub = true,
+                        MockCmd::InitHeaderSub { head } => {
+                            has_sub = true;
+                            sub_known = Some(head);
+                        }
                         _ => {}
                     }
                 }
@@ -260,7 +273,15 @@ pub fn record(args: &Args) {
                         3 | 4 if net_head < n => {
                             net_head += 1;
                             tw.emit(json!({"name": "newblock", "netHead": net_head}));
-                            if connected && has_sub {
+                            // header-sub as the real P2p worker runs it: a published header is forwarded to the syncer
+                            // only if it verifies against the head the syncer initialised header-sub with (or the last
+                            // forwarded one); anything else is ignored
+                            let forwards = sub_known.as_ref().map_or(true, |k| k.verify(&world.a(net_head)).is_ok());
+                            if connected && has_sub && !forwards {
+                                n_sub_ignored += 1;
+                            }
+                            if connected && has_sub && forwards {
+                                sub_known = Some(world.a(net_head));
                                 handle.announce_new_head(world.a(net_head));
                                 settle().await;
                                 tw.emit(json!({"name": "headsub", "h": net_head, "st": world.snapshot(Some(&syncer)).await}));
@@ -374,7 +395,8 @@ pub fn record(args: &Args) {
             for p in ["C25", "C38", "C24"] {
                 sum.case(p, if nontrivial { Some(format!("{mode}/{run}")) } else { None },
                          || json!({"mode": mode, "n": n, "batch": batch, "wsamp": k, "fetches": n_fetch, "prunes": n_prune, "racing_prunes": n_race,
-                                   "foreign_answers": n_foreign, "disconnects": n_disc}));
+                                   "foreign_answers": n_foreign, "disconnects": n_disc,
+                                   "forked_head_answers": n_forked_head, "header_sub_ignored": n_sub_ignored}));
             }
         }
     });
